@@ -377,7 +377,15 @@ func scenC20(x *Exec) {
 		var ds, dq []string
 		for _, d := range r.Dests {
 			ds = append(ds, destString(d))
-			dq = append(dq, "'"+destString(d)+"'")
+			// in the TOML form the options of a destination are often aligned in columns; any run of blanks separates them
+			td := destString(d)
+			switch hashStr(td) % 3 {
+			case 0:
+				td = strings.Replace(td, " ", "   ", -1)
+			case 1:
+				td = strings.Replace(td, " ", "  ", 1)
+			}
+			dq = append(dq, "'"+td+"'")
 		}
 		fmt.Fprintf(&sections, "destinations = [ %s ]\n", strings.Join(dq, ", "))
 		c := fmt.Sprintf("addRoute %s %s %s  %s", r.Type, r.Key, filterOptString(r.F, "sub"), strings.Join(ds, "  "))
